@@ -33,6 +33,8 @@ def sim_lines(o, parts=None):
         wtoks += wmap.get(t, zero)
     mode = "" if not parts else " K %d %s" % (len(parts), " ".join(str(k) for k in parts))
     lines.append("runc %d %s %s %s%s" % (n, " ".join(first["clock0"]), " ".join(wtoks), " ".join(first["pre"]), mode))
+    if o.get("final_tables_differ"):
+        return lines, ["FINAL-TABLES-DIFFER-FROM-THE-ROWS-WRITTEN:"] + o["final_tables_differ"].split()
     # the season list must be the same on every day (it is a constant of the run in the model)
     changed = next((d for _, d in recs if d["clock0"][5:] != first["clock0"][5:]), None)
     if changed is not None:
